@@ -136,6 +136,52 @@ func checkMine(c mineCase) (h.Info, error) {
 
 var workers = map[int]*powv2.Worker{} // reused from case to case
 
+// cancelled calls: whatever Mine returns without error must still meet the target
+type cancelCase struct {
+	Data    h.B    `json:"data"`
+	Workers int    `json:"workers"`
+	Target  uint64 `json:"target"`
+	DelayUs int    `json:"delay_us"` // -1 = cancelled before the call
+}
+
+func TestMineCancelled(t *testing.T) {
+	h.Run(t, h.Sub[cancelCase]{
+		Prop: "C12", Name: "mine-cancelled", N: 160,
+		Gen: func(t *rapid.T) cancelCase {
+			c := cancelCase{Data: h.Bytes(t, "data", 0, 40), Workers: h.OneOf(t, "workers", 1, 2, 4, 8), DelayUs: rapid.IntRange(-1, 3000).Draw(t, "delay")}
+			ell := uint64(len(c.Data) + 8)
+			c.Target = rapid.Uint64Range(1<<30, ^uint64(0)/ell-1).Draw(t, "target")
+			return c
+		},
+		Check: func(c cancelCase) (h.Info, error) {
+			ctx, cancel := context.WithCancel(context.Background())
+			if c.DelayUs < 0 {
+				cancel()
+			} else {
+				go func() { time.Sleep(time.Duration(c.DelayUs) * time.Microsecond); cancel() }()
+			}
+			defer cancel()
+			w, ok := workers[c.Workers]
+			if !ok {
+				w = powv2.New(c.Workers)
+				workers[c.Workers] = w
+			}
+			nonce, err := w.Mine(ctx, append([]byte{}, c.Data...), c.Target)
+			info := h.Info{Class: "cancelled/error", NT: true}
+			if err != nil {
+				return info, nil
+			}
+			info.Class = "cancelled/nonce"
+			if got := powv2.Score(msgOf(c.Data, nonce)); got < c.Target {
+				return info, fmt.Errorf("v2.Mine(data=%x, target=%d, workers=%d) with a context cancelled after %d us returned nonce %d WITHOUT error although its Score %d is below the target", []byte(c.Data), c.Target, c.Workers, c.DelayUs, nonce, got)
+			}
+			return info, nil
+		},
+		Require: []string{"cancelled/error"},
+		Rule:    "targets >= 2^30 (not found within milliseconds) with the context cancelled before the call or after 0..3 ms: a nonce returned without error must still satisfy Score >= target (an error is fine); all non-trivial; distinct by case",
+	})
+}
+
 func genMine(t *rapid.T) mineCase {
 	c := mineCase{Data: h.Bytes(t, "data", 0, 64), Workers: 1}
 	if h.Pick(t, "dlong", 10, 1) == 1 {
